@@ -3,6 +3,7 @@
    Proofs/LabelUtilsProofs.v), non-vacuity examples, and Print Assumptions. *)
 From Coq Require Import ZArith List Bool.
 From FT Require Import Model.LabelUtils Proofs.LabelUtilsProofs.
+From FT Require Gen.LabelUtils_gen Proofs.LabelUtilsTie.
 Import ListNotations.
 Open Scope Z_scope.
 
@@ -57,6 +58,24 @@ Proof. exact relabel_by_track_same_label. Qed.
 
 (* non-vacuity: the witness of finding F-19a satisfies the hypothesis and the model
    computes disjoint label sets for it; a by-track input with a division. *)
+(* ---- the three functions are, for all arguments, the code translated on every run from the current
+        utils/_segmentation_utils.py (Gen/LabelUtils_gen.v; translator harness/translate_numpy_utils.py with the
+        numpy combinators of Model/NpRt.v, fail closed).  For the by-track painter the networkx calls are
+        uninterpreted: the component list the model takes as input is exactly
+        weakly_connected_components(copy with the out-edges of every dividing node removed). ---- *)
+Theorem C19_unique_is_generated : forall fs,
+  FT.Gen.LabelUtils_gen.gen_ensure_unique_labels fs = ensure_unique_labels fs.
+Proof. exact FT.Proofs.LabelUtilsTie.gen_ensure_unique_labels_eq. Qed.
+
+Theorem C19_unique_multiseg_is_generated : forall hs,
+  FT.Gen.LabelUtils_gen.gen_ensure_unique_labels_multiseg hs = ensure_unique_labels_multiseg hs.
+Proof. exact FT.Proofs.LabelUtilsTie.gen_ensure_unique_labels_multiseg_eq. Qed.
+
+Theorem C19_by_track_is_generated : forall (Graph Edges : Type) out_degree copy out_edges remove_edges_from wcc node_attr (g : Graph) seg,
+  FT.Gen.LabelUtils_gen.gen_relabel_segmentation_with_track_id Graph Edges out_degree copy out_edges remove_edges_from wcc node_attr g seg =
+  relabel_with_track_id (FT.Proofs.LabelUtilsTie.comps_of Graph Edges out_degree copy out_edges remove_edges_from wcc node_attr g) seg.
+Proof. exact FT.Proofs.LabelUtilsTie.gen_relabel_segmentation_with_track_id_eq. Qed.
+
 Example C19_nonvacuous_unique :
   nonneg [[1;0;0;2];[0;0;0;0];[1;0;0;2]] /\
   ensure_unique_labels [[1;0;0;2];[0;0;0;0];[1;0;0;2]] = [[1;0;0;2];[0;0;0;0];[3;0;0;4]].
@@ -77,3 +96,6 @@ Print Assumptions C19_unique_global.
 Print Assumptions C19_unique_multiseg.
 Print Assumptions C19_by_track.
 Print Assumptions C19_by_track_same_label.
+Print Assumptions C19_unique_is_generated.
+Print Assumptions C19_unique_multiseg_is_generated.
+Print Assumptions C19_by_track_is_generated.
